@@ -115,10 +115,6 @@ def check_bytes(case):
 
 def compare_with_ref(data, r, ref):
     if ref[0] == "err":
-        if ref[1].startswith("textblock") and b"\r" in data:
-            # CR LF line ends inside text blocks are outside the specified grammar (this implementation accepts
-            # CR LF blank lines as an extension): not judged
-            return
         if "ok" in r:
             raise Violation("lex-accepts-invalid", f"lexer accepted input the lexical grammar rejects ({ref[1]} at {ref[2]}): {bytes(data)[:120]!r}")
         return
@@ -166,7 +162,7 @@ COMMENT_BODY = [b"*", b"*", b"/", b" ", b"a", b"\n", b"**", b"*/", b"/*", b"\xc3
 STRING_BODY = [b"a", b"\\", b"\\\\", b"\\n", b"\\u", b"00e9", b"d83d", b"\\ude00", b"\\uD83D", b"'", b'"', b"''", b'""', b"\xc3\xa9", b"\xe2\x82", b"\xf0\x80\x80\x80",
                b"\xf0\x8f\xbf\xbf", b"\xf0\x9f\x98\x80", b"\xed\xa0\x80", b"\xc0\x80", b"\xff", b"\n", b" ", b"\\x", b"\\/", b"\\b", b"z", b"\xf4\x90\x80\x80", b"\xe0\x9f\xbf"]
 NUMBER_BODY = [b"0", b"1", b"9", b"_", b".", b"e", b"E", b"+", b"-", b"00", b"1e", b"e5", b"_1", b"1_", b"5."]
-TB_LINES = [b"  a\n", b"  \n", b"\n", b"\ta\n", b"   b\n", b" c\n", b"  |||\n", b"  a\r\n", b"  \xff\n", b"  \xc3\xa9\n", b"a\n", b"\t\n", b"  a"]
+TB_LINES = [b"  a\n", b"  \n", b"\n", b"\r\n", b"\r\n", b"  \r\n", b"\r", b"  b\r\n", b"\ta\n", b"   b\n", b" c\n", b"  |||\n", b"  a\r\n", b"  \xff\n", b"  \xc3\xa9\n", b"a\n", b"\t\n", b"  a"]
 
 
 @st.composite
@@ -183,7 +179,7 @@ def structured_fragment(draw):
     if k == 3:
         return draw(st.sampled_from([b"1", b"0", b"12", b"7"])) + draw(_bytes_from(NUMBER_BODY, 5))
     if k == 4:
-        return draw(st.sampled_from([b"|||\n", b"|||-\n", b"||| \n", b"|||\t\r\n", b"|||"])) + draw(_bytes_from(TB_LINES, 5)) + draw(st.sampled_from([b"|||", b" |||", b"\t|||", b"  |||", b""]))
+        return draw(st.sampled_from([b"|||\n", b"|||-\n", b"||| \n", b"|||\t\r\n", b"|||\r\n", b"|||-\r\n", b"|||"])) + draw(_bytes_from(TB_LINES, 5)) + draw(st.sampled_from([b"|||", b" |||", b"\t|||", b"  |||", b""]))
     return draw(st.sampled_from([b"//", b"#"])) + draw(_bytes_from(COMMENT_BODY, 4)) + b"\n"
 
 
@@ -218,6 +214,7 @@ def check_soup(case):
 
 ESC = {'"': '\\"', "'": "\\'", "\\": "\\\\", "/": "\\/", "\b": "\\b", "\f": "\\f", "\n": "\\n", "\r": "\\r", "\t": "\\t"}
 STRCHARS = ["a", "b", " ", '"', "'", "\\", "/", "\b", "\f", "\n", "\r", "\t", "\x00", "\x1f", "\x7f", "\u00e9", "\u00df", "\u4e2d", "\u2028", "\ufeff",
+            "\U00020000", "\U0002a6df", "\U000e0001", "\U000f0000", "\U0010ffff", "\U00040000",
             "\ufffd", "\ud7ff", "\ue000", "\uffff", "\U00010000", "\U0001f600", "\U0010ffff", "|", "@", "%", "$", "#", "*"]
 
 
@@ -373,6 +370,14 @@ def scalar_chunks(tier, worker, nworkers):
     for i, ch in enumerate(chunks):
         if i % nworkers == worker:
             yield {"kind": "scalars", "cps": [ch[0], ch[-1], len(ch)], "list": ch}
+    # \uXXXX escapes (BMP) and surrogate-pair escapes (every plane, plane boundaries included)
+    estep = 1 if tier == "thorough" else 61
+    ecps = [c for c in range(0, 0x110000, estep) if not (0xd800 <= c <= 0xdfff)]
+    ecps += [p * 0x10000 + o for p in range(1, 17) for o in (0, 1, 0x3ff, 0x400, 0xfffe, 0xffff)] + [0xd7ff, 0xe000, 0xffff, 0xfffe, 0x7f, 0x80]
+    echunks = [ecps[i:i + 1024] for i in range(0, len(ecps), 1024)]
+    for i, ch in enumerate(echunks):
+        if i % nworkers == worker:
+            yield {"kind": "escapes", "cps": [ch[0], ch[-1], len(ch)], "list": ch}
     # invalid UTF-8: all 2-byte sequences starting with a non-ASCII byte, in a string and in a comment
     if tier == "thorough":
         leads = list(range(0x80, 0x100))
@@ -384,6 +389,31 @@ def scalar_chunks(tier, worker, nworkers):
 
 
 def check_scalars(case):
+    if case["kind"] == "escapes":
+        cps = case["list"]
+        parts, exp = [], []
+        for n, c in enumerate(cps):
+            if c < 0x10000:
+                esc = "\\u%04x" % c
+            else:
+                v = c - 0x10000
+                esc = "\\u%04X\\u%04x" % (0xd800 + (v >> 10), 0xdc00 + (v & 0x3ff))
+            if n % 3 == 1:
+                esc = esc.upper().replace("\\U", "\\u")
+            q = "'" if n % 2 else '"'
+            parts.append(q + "a" + esc + "z" + q)
+            exp.append("a" + chr(c) + "z")
+        src = " ".join(parts).encode("ascii")
+        r = lex(src, False)
+        if "err" in r:
+            raise Violation("escape-rejected", f"escape of a scalar in U+{cps[0]:04X}..U+{cps[-1]:04X} rejected: {r['err']}")
+        got = [t.get("v") for t in r["ok"]["tokens"] if t["k"] != "eof"]
+        for g, e, p_ in zip(got, exp, parts):
+            if g != e:
+                raise Violation("escape-payload", f"{p_} decoded as {g!a}, expected {e!a}")
+        if len(got) != len(exp):
+            raise Violation("scalar-count", f"{len(got)} tokens for {len(exp)} literals")
+        return {"nontrivial": True, "labels": ["escapes"], "sample": f"\\u escapes of U+{cps[0]:04X}..U+{cps[-1]:04X} ({len(cps)} scalars, pairs for the astral ones)"}
     if case["kind"] == "scalars":
         cps = case["list"]
         parts = []
